@@ -7,6 +7,7 @@ Sub-checks (one constructor of C14.Corr.case each):
   redir  : Entity.apply_binding(HTTP-Redirect) / pack.http_redirect_message -> Location, read back with
            urllib.parse, payload through Entity.unravel
   arturl : Entity.apply_binding(HTTP-Artifact) (httpbase.use_http_artifact)
+  uriurl : Entity.apply_binding(URI) / HTTPBase.use_http_uri (request side: ...?ID=...)
   soap   : Entity.apply_binding(SOAP) (pack.make_soap_enveloped_saml_thingy), read back with
            soap.parse_soap_enveloped_saml_thingy / Entity.unravel
   unravel: Entity.unravel on deflated / plain / malformed payloads, every binding
@@ -24,20 +25,22 @@ from harness import env, render, world
 from harness.common import Raw, cq
 
 PID = "C14"
-PARALLEL = 8
-IMPORTS = "From Verif Require Import Base.Percent Base.Base64 Base.Html Base.Query C14.Model C14.Spec C14.Corr."
+PARALLEL = 6
 CASE_TYPE = "C14.Corr.case"
 RUNNER = "C14.Corr.run"
-FINDING_CLASSES = {1: "C14-F1", 2: "C14-F2", 3: "C14-F3", 4: "C14-F4"}
+# 1: open.  2, 3, 4, 5: repaired in /repo (status fixed): a case in these classes is a VIOLATION again.
+FINDING_CLASSES = {1: "C14-F1", 2: "C14-F2", 3: "C14-F3", 4: "C14-F4", 5: "C14-F8"}
 RULE = ("stdlib: seeded random + boundary byte strings through base64/html/urllib.parse and the Coq models (equality of "
-        "outputs); post/redir: complete product RelayState alphabet x destination alphabet for a small message, every "
-        "message of the pool (library-made by Saml2Client/Server incl. a signed one, independently rendered with unicode, "
-        "with/without XML declaration, one-line/multi-line/CRLF, long) x sampled RelayState/destination, message types "
-        "SAMLRequest/SAMLResponse/SAMLart/other; soap: every pool message incl. declaration variants; unravel: deflated, "
-        "plain and malformed payloads x all bindings; art: endpoint indexes 0..300 + sample of 301..65535 (thorough: all "
-        "0..65535), entityIDs incl. unicode, metadata via MetadataStore.construct_source_id and synthetic maps (missing "
-        "descriptor / service keys, several descriptors), malformed artifacts.  non-trivial = distinct (sub-check, "
-        "character classes present in RelayState/destination/message, type, outcome)")
+        "outputs); post/redir/arturl: complete product RelayState alphabet x destination alphabet for a small unicode "
+        "message (destinations: every combination of none/empty/non-empty query, trailing '?' '&', fragment, markup, "
+        "unicode, control characters), every message of the pool (library-made by Saml2Client/Server incl. a signed one, "
+        "independently rendered with unicode, with/without XML declaration, one-line/multi-line/CRLF, long) x sampled "
+        "RelayState/destination, message types SAMLRequest/SAMLResponse/SAMLart/other; uriurl: destination alphabet x "
+        "RelayState sample; soap: every pool message incl. declaration variants and declaration text inside the body; "
+        "unravel: deflated, plain and malformed payloads x all bindings; art: endpoint indexes 0..300 + sample of "
+        "301..65535 (thorough: all 0..65535), entityIDs incl. unicode, metadata via MetadataStore.construct_source_id and "
+        "synthetic maps (missing descriptor / service keys, several descriptors), malformed artifacts.  non-trivial = "
+        "distinct (sub-check, character classes present in RelayState/destination/message, type, outcome)")
 TRUSTED = ["zlib (observed per case, abstract in the proofs)", "hashlib.sha1 (observed per case, abstract in the proofs)",
            "xml.etree / defusedxml parser and serialiser on the SOAP receiver side (compared by canonical tree digest)",
            "html.parser.HTMLParser and urllib.parse as the receiver's readers", "renderer harness/render.py",
@@ -51,6 +54,7 @@ ASSUMPTIONS = [
     "SOAP: header_parts=None, str input; the ElementTree serialisation of the empty envelope is a constant of the model",
     "int(b, 16) is modelled for slices of at most two bytes (what artifact2destination passes)",
     "redirect signing (sign=True) is property C15, not C14",
+    "open finding class: 1 (artifact endpoint index >= 256); the artifact round-trip theorem is stated outside it (idx_ok)",
 ]
 
 POST, REDIRECT = world.BINDING_HTTP_POST, world.BINDING_HTTP_REDIRECT
@@ -58,59 +62,170 @@ SOAP, ARTIFACT, URI, PAOS = world.BINDING_SOAP, world.BINDING_HTTP_ARTIFACT, wor
 
 
 # ---------------------------------------------------------------------------- Coq terms
+# Coq parses a string literal at ~80 us per character and a packed byte string (Corr.pk: 7 bytes per
+# primitive integer) at ~28 us per byte.  The case files therefore
+#   * write every byte string of 16+ bytes (or with non-printable bytes) packed and only once per case (let-bound),
+#   * refer to a small file-level dictionary (defined through IMPORTS at the top of every shard) for the constant
+#     segments of pysaml2's HTML form, for the long RelayState of the alphabet and for the constant form tokens.
+# The dictionary is a compression aid only: every term still denotes exactly the observed value (a string that
+# does not contain a dictionary segment is simply written out in full).
 def _b(s):
     return s.encode("utf-8") if isinstance(s, str) else bytes(s)
 
 
-_BAD = re.compile("([\udc80-\udcff\x00]+)")
+def _pk(b):
+    ints = ";".join(str(int.from_bytes(b[i:i + 7], "little")) for i in range(0, len(b), 7))
+    return "(pk %d [%s]%%uint63)" % (len(b), ints)
 
 
-def cs(s):
-    """Coq string term for a byte string: literal text where it is valid UTF-8, (sb [..]) elsewhere."""
-    b = _b(s)
-    t = b.decode("utf-8", errors="surrogateescape")
-    parts = []
-    for k, seg in enumerate(_BAD.split(t)):
-        if not seg:
-            continue
-        if k % 2:
-            raw = seg.encode("utf-8", errors="surrogateescape")
-            parts.append("(sb [" + ";".join(str(c) for c in raw) + "]%N)")
-        else:
-            parts.append('"' + seg.replace('"', '""') + '"')
-    if not parts:
-        return '""'
-    if len(parts) == 1:
-        return parts[0]
-    return "(" + " ++ ".join(parts) + ")"
+def _lit_ok(b):
+    return len(b) < 16 and all(0x20 <= c <= 0x7E for c in b)
 
 
-def cs_opt(s):
-    return "None" if s is None else "(Some %s)" % cs(s)
+def _lit(b):
+    return '"' + b.decode("ascii").replace('"', '""') + '"'
 
 
-def cpairs(l):
-    return "[" + "; ".join("(%s, %s)" % (cs(k), cs(v)) for k, v in l) + "]"
+_FORM_TEMPLATE = """<!DOCTYPE html>
+<html>
+  <head>
+    <meta charset="utf-8" />
+  </head>
+  <body onload="document.forms[0].submit()">
+    <noscript>
+      <p>
+        <strong>Note:</strong>
+        Since your browser does not support JavaScript,
+        you must press the Continue button once to proceed.
+      </p>
+    </noscript>
+    <form action="{action}" method="post">
+      {saml_response_input}
+      {relay_state_input}
+      <noscript>
+        <input type="submit" value="Continue"/>
+      </noscript>
+    </form>
+  </body>
+</html>"""
+LONG_X = "x" * 1500
+DICT_STR = [("d%d" % k, _b(seg)) for k, seg in enumerate(
+    [x for x in re.split(r"\{[a-z_]+\}", _FORM_TEMPLATE) if len(x) >= 20]
+    + ['<input type="hidden" name="', LONG_X, "https://idp.example.org/sso", "https://ars.example.org/"])]
+_DICT_BY_VAL = {b: n for n, b in DICT_STR}
+_DICT_RE = re.compile(b"|".join(re.escape(b) for _, b in sorted(DICT_STR, key=lambda e: -len(e[1]))))
+# constant tokens of the auto-submitting form, as html.parser reports them
+DICT_TOK = [["s", "html", []], ["s", "head", []], ["s", "meta", [["charset", "utf-8"]]], ["e", "head"],
+            ["s", "body", [["onload", "document.forms[0].submit()"]]], ["s", "noscript", []], ["s", "p", []],
+            ["s", "strong", []], ["e", "strong"], ["e", "p"], ["e", "noscript"],
+            ["s", "input", [["type", "submit"], ["value", "Continue"]]], ["e", "form"], ["e", "body"], ["e", "html"]]
 
 
-def cures(r):
-    if r[0] == "ok":
-        return "(UOk %s)" % cs(bytes.fromhex(r[1]))
-    return {"unravel": "UUnravelError", "unknown": "UUnknownBinding"}[r[0]]
+def _tok_plain(t):
+    if t[0] == "s":
+        return "TStart %s [%s]" % (_lit(_b(t[1])), "; ".join("(%s, %s)" % (_lit(_b(k)), _lit(_b(v))) for k, v in t[2]))
+    return "TEnd %s" % _lit(_b(t[1]))
 
 
-def cares(r):
-    if r[0] == "ok":
-        return "(AOk %s)" % cs_opt(r[1])
-    return "AErr"
+IMPORTS = "\n".join(
+    ["From Coq Require Import Uint63.",
+     "From Verif Require Import Base.Percent Base.Base64 Base.Html Base.Query C14.Model C14.Spec C14.Corr.",
+     "Import ListNotations.", "Open Scope string_scope."]
+    + ["Definition %s : string := Eval vm_compute in %s." % (n, _pk(b)) for n, b in DICT_STR]
+    + ["Definition tk%d : token := %s." % (k, _tok_plain(t)) for k, t in enumerate(DICT_TOK)]
+    + ['Definition hid (n v : string) : token := TStart "input" [("type", "hidden"); ("name", n); ("value", v)].',
+       'Definition frm (a : string) : token := TStart "form" [("action", a); ("method", "post")].'])
 
 
-def cztab(t):
-    return "[" + "; ".join("(%s, %s)" % (cs(bytes.fromhex(k)), cs_opt(None if v is None else bytes.fromhex(v))) for k, v in t) + "]"
+class _Pool:
+    """Strings of one case: short printable ones as literals, the others let-bound once."""
 
+    def __init__(self):
+        self.names = {}
+        self.defs = []
 
-def cdtab(t):
-    return "[" + "; ".join("(%s, %s)" % (cs(bytes.fromhex(k)), cs(bytes.fromhex(v))) for k, v in t) + "]"
+    def _atom(self, b):
+        if _lit_ok(b):
+            return _lit(b)
+        if b in _DICT_BY_VAL:
+            return _DICT_BY_VAL[b]
+        return _pk(b)
+
+    def s(self, v):
+        b = _b(v)
+        if _lit_ok(b):
+            return _lit(b)
+        if b in _DICT_BY_VAL:
+            return _DICT_BY_VAL[b]
+        if b not in self.names:
+            parts, pos = [], 0
+            for m in _DICT_RE.finditer(b):
+                if m.start() > pos:
+                    parts.append(b[pos:m.start()])
+                parts.append(m.group(0))
+                pos = m.end()
+            if pos < len(b):
+                parts.append(b[pos:])
+            assert b"".join(parts) == b
+            term = self._atom(parts[0]) if len(parts) == 1 else "(" + " ++ ".join(self._atom(x) for x in parts) + ")"
+            name = "b%d" % len(self.names)
+            self.names[b] = name
+            self.defs.append("let %s := %s in" % (name, term))
+        return self.names[b]
+
+    def opt(self, v):
+        return "None" if v is None else "(Some %s)" % self.s(v)
+
+    def pairs(self, l):
+        return "[" + "; ".join("(%s, %s)" % (self.s(k), self.s(v)) for k, v in l) + "]"
+
+    def ures(self, r):
+        if r[0] == "ok":
+            return "(UOk %s)" % self.s(bytes.fromhex(r[1]))
+        return {"unravel": "UUnravelError", "unknown": "UUnknownBinding"}[r[0]]
+
+    def ares(self, r):
+        if r[0] == "ok":
+            return "(AOk %s)" % self.opt(r[1])
+        return "AErr"
+
+    def ztab(self, t):
+        return "[" + "; ".join("(%s, %s)" % (self.s(bytes.fromhex(k)), self.opt(None if v is None else bytes.fromhex(v)))
+                               for k, v in t) + "]"
+
+    def dtab(self, t):
+        return "[" + "; ".join("(%s, %s)" % (self.s(bytes.fromhex(k)), self.s(bytes.fromhex(v))) for k, v in t) + "]"
+
+    def sm(self, sm):
+        ents = []
+        for sid, descs in sm:
+            if descs is None:
+                e = "None"
+            else:
+                e = "(Some [" + "; ".join("None" if d is None else "(Some %s)" % self.pairs(d) for d in descs) + "])"
+            ents.append("(%s, %s)" % (self.s(bytes.fromhex(sid)), e))
+        return "[" + "; ".join(ents) + "]"
+
+    def toks(self, toks):
+        out = []
+        for t in toks:
+            if t in DICT_TOK:
+                out.append("tk%d" % DICT_TOK.index(t))
+            elif t[0] == "s" and t[1] == "input" and len(t[2]) == 3 and t[2][0] == ["type", "hidden"] \
+                    and t[2][1][0] == "name" and t[2][2][0] == "value":
+                out.append("hid %s %s" % (self.s(t[2][1][1]), self.s(t[2][2][1])))
+            elif t[0] == "s" and t[1] == "form" and len(t[2]) == 2 and t[2][0][0] == "action" and t[2][1] == ["method", "post"]:
+                out.append("frm %s" % self.s(t[2][0][1]))
+            elif t[0] == "s":
+                out.append("TStart %s %s" % (self.s(t[1]), self.pairs(t[2])))
+            else:
+                out.append("TEnd %s" % self.s(t[1]))
+        return "[" + "; ".join(out) + "]"
+
+    def wrap(self, term):
+        if not self.defs:
+            return term
+        return "(" + " ".join(self.defs) + " " + term + ")"
 
 
 BINDING_COQ = {REDIRECT: "BRedirect", POST: "BPost", SOAP: "BSoap", URI: "BUri", ARTIFACT: "BArtifact", None: "BNoBinding",
@@ -193,7 +308,7 @@ def pool(thorough):
     out.append(("rend-decl-noenc-sp", "response", '<?xml version="1.0"?>  ' + r_small))
     out.append(("rend-multiline", "response", '<?xml version="1.0" encoding="utf-8"?>\n' + r_small.replace("><", ">\n  <")))
     out.append(("rend-pi-comment", "response", "<?xml version='1.0'?>\n<!-- c > ?> --><?pi x?>\n" + r_small))
-    out.append(("rend-long", "response", rendered(400 if thorough else 60, "x" * 100 + "é")))
+    out.append(("rend-long", "response", rendered(400 if thorough else 20, "x" * 100 + "é")))
     out.append(("tiny", "other", "<a/>"))
     out.append(("tiny-text", "other", "<a xmlns='urn:x' b=\"1\">täxt &amp; &lt;<b/>tail</a>"))
     out.append(("cdata-prefix", "other", '<a><![CDATA[<?xml version="1.0" encoding="UTF-8"?>]]></a>'))
@@ -205,7 +320,7 @@ def pool(thorough):
 RS_ALPHABET = [
     "", "rs", "/path?x=1&y=2", "\"><script>alert(1)</script>", "' onmouseover='alert(1)", "a&b=c", "a b+c%20d",
     "&SAMLRequest=evil&SAMLResponse=evil", "ünï✓\U0001F600", "#frag", "?q", "a;b", "<>&\"'", "&amp;&lt;&#x27;&quot;",
-    "=", "%", "%zz%41", "line1\nline2\r\n\ttab", " ", "x" * 1500 + "\"'<>&" * 20, "RelayState=1&RelayState=2", "\\", "{}{0}{action}",
+    "=", "%", "%zz%41", "line1\nline2\r\n\ttab", " ", LONG_X + "\"'<>&" * 20, "RelayState=1&RelayState=2", "\\", "{}{0}{action}",
 ]
 
 DEST_ALPHABET = [
@@ -216,7 +331,16 @@ DEST_ALPHABET = [
     "https://idp.example.org/s s o", "", "/relative/path", "https://idp.example.org/sso?\t", "https://idp.example.org/sso?a",
     "https://idp.example.org/sso?=v&&k=", "https://idp.example.org/sso;p=1?q=2", "javascript:alert(1)//&",
     "https://idp.example.org/sso?{0}{action}",
+    # the query component in every state add_query distinguishes: ends in '&', ends in '?', '?' '&' next to '#'
+    "https://idp.example.org/sso?a=1&", "https://idp.example.org/sso?&", "https://idp.example.org/sso?a=1&#frag",
+    "https://idp.example.org/sso?#frag", "https://idp.example.org/sso#frag?x=1&y", "https://idp.example.org/sso#",
+    "https://idp.example.org/sso?a=1#", "https://idp.example.org/sso#a#b", "https://idp.example.org/sso?a=1\n&",
+    "https://idp.example.org/sso&a=1", "https://idp.example.org/sso?a=1?", "https://idp.example.org/sso??",
+    "https://idp.example.org/sso?a=1?#frag", "https://idp.example.org/sso?a=1?\t",
 ]
+
+# the message of the complete RelayState x destination products: small, with unicode and markup characters
+PROD_MSG = "<R xmlns='urn:x' a=\"1\">é✓ &amp; &lt;</R>"
 
 TYPS_FORM = ["SAMLRequest", "SAMLResponse", "SAMLart", "\"><script>x</script>", "t'y&p", "typé"]
 
@@ -236,6 +360,15 @@ def char_classes(s):
     return "+".join(c)
 
 
+def query_state(loc):
+    """What pack.add_query has to distinguish about a destination."""
+    base, h, _ = loc.partition("#")
+    path, q, query = base.partition("?")
+    st = "no-query" if not q else "empty-query" if not query else "query-ends-amp" if query.endswith("&") else \
+        "query-ends-qm" if query.endswith("?") else "query"
+    return st + ("+fragment" if h else "")
+
+
 # ---------------------------------------------------------------------------- generators
 def rand_bytes(rng, maxlen=40):
     k = rng.random()
@@ -249,7 +382,7 @@ def rand_bytes(rng, maxlen=40):
 
 def gen_stdlib(ctx):
     rng = ctx.rng
-    n = 3000 if ctx.thorough else 500
+    n = 3000 if ctx.thorough else 150
     cases = []
     bound = [b"", b"\x00", b"\xff", b"\x00\x00", b"\xff\xff", b"\x00\x00\x00", b"\xff\xff\xff", b"\xfb\xff\xbf", bytes(range(256)),
              b"&", b"&&", b"&amp;", b"<>\"'&", b"a", b"ab", b"abc", b"abcd", b" ", b"+", b"%", b"~_.-/", b"/"]
@@ -325,12 +458,32 @@ def gen_stdlib(ctx):
     al = b"0123456789abcdefABCDEFgGxX+-_ \t\n\r\x0b\x0c\x00\xff.o"
     i16 = [bytes([a]) for a in range(256)] + [b""] + [bytes([a, b]) for a in al for b in al]
     if not ctx.thorough:
-        i16 = i16[:257] + rng.sample(i16[257:], 400)
+        i16 = i16[:257] + rng.sample(i16[257:], 150)
     for b in i16:
         cases.append({"k": "int16", "b": b.hex()})
-    for i in list(range(0, 300)) + [4095, 4096, 65535, 65536, 1000000] + [rng.randrange(300, 65536) for _ in range(50)]:
+    for i in list(range(0, 260 if not ctx.thorough else 4200)) + [4095, 4096, 65535, 65536, 1000000] + [rng.randrange(260, 65536) for _ in range(40)]:
         cases.append({"k": "fmt", "n": i})
     return cases
+
+
+# quick tier: the structurally distinct destinations (no / empty / non-empty query, trailing '?' '&', fragment, markup,
+# unicode, control character, empty) and the RelayStates that every destination is combined with
+DEST_CORE = [DEST_ALPHABET[i] for i in (0, 1, 3, 4, 5, 6, 7, 8, 11, 13)] + [
+    "https://idp.example.org/sso?a=1&", "https://idp.example.org/sso?a=1&#frag", "https://idp.example.org/sso?a=1?"]
+RS_CORE = ["", "rs", "&SAMLRequest=evil&SAMLResponse=evil", "\"><script>alert(1)</script>", "ünï✓\U0001F600"]
+QUICK_SKIP = {"rend-decl-dq-oneline", "rend-decl-sq-nl", "rend-decl-noenc-sp", "rend-multiline", "rend-pi-comment",
+              "second-decl-in-comment", "upper-decl"}
+
+
+def rs_dest_pairs(ctx):
+    if ctx.thorough:
+        return [(rs, d) for rs in RS_ALPHABET for d in DEST_ALPHABET]
+    seen, out = set(), []
+    for rs, d in [(rs, d) for rs in RS_ALPHABET for d in DEST_CORE] + [(rs, d) for d in DEST_ALPHABET for rs in RS_CORE]:
+        if (rs, d) not in seen:
+            seen.add((rs, d))
+            out.append((rs, d))
+    return out
 
 
 def gen_bindings(ctx, msgs):
@@ -342,15 +495,20 @@ def gen_bindings(ctx, msgs):
     def typ_for(kind):
         return "SAMLResponse" if kind == "response" else "SAMLRequest"
 
-    # complete product RelayState x destination on one message, POST and Redirect
-    for rs in RS_ALPHABET:
-        for d in DEST_ALPHABET:
-            cases.append({"k": "post", "msg": small, "mtag": "rend-response", "loc": d, "rs": rs, "typ": "SAMLResponse", "via": "idp"})
-            cases.append({"k": "redir", "msg": small, "mtag": "rend-response", "loc": d, "rs": rs, "typ": "SAMLResponse", "via": "idp"})
-    # every message x sampled RelayState / destination
+    # RelayState x destination on one message, POST and Redirect.  thorough: the complete product; quick: every
+    # RelayState with the structurally distinct destinations (DEST_CORE) and every destination with RS_CORE
+    for rs, d in rs_dest_pairs(ctx):
+        cases.append({"k": "post", "msg": PROD_MSG, "mtag": "prod", "loc": d, "rs": rs, "typ": "SAMLResponse", "via": "idp"})
+        cases.append({"k": "redir", "msg": PROD_MSG, "mtag": "prod", "loc": d, "rs": rs, "typ": "SAMLResponse", "via": "idp"})
+    # every message x sampled RelayState / destination (quick: the declaration variants of the rendered response only
+    # matter for SOAP and are left to the thorough tier here)
     for t, kind, m in msgs:
-        picks = [(RS_ALPHABET[1], DEST_ALPHABET[0]), ("", DEST_ALPHABET[1])]
-        for _ in range(6 if ctx.thorough else 2):
+        if not ctx.thorough and t in QUICK_SKIP:
+            continue
+        picks = [(RS_ALPHABET[1], DEST_ALPHABET[0])]
+        if ctx.thorough:
+            picks.append(("", DEST_ALPHABET[1]))
+        for _ in range(6 if ctx.thorough else 1):
             picks.append((rng.choice(RS_ALPHABET), rng.choice(DEST_ALPHABET)))
         for rs, d in picks:
             typ = typ_for(kind)
@@ -359,31 +517,41 @@ def gen_bindings(ctx, msgs):
             cases.append({"k": "redir", "msg": m, "mtag": t, "loc": d, "rs": rs, "typ": typ, "via": via})
     # message types: direct calls of the pack functions
     for typ in TYPS_FORM:
-        for m, mt in ((small, "rend-response"), ("<a/>", "tiny"), ("AAQAAMFbLinlXaCM+plain/artifact==", "artifact-str")):
+        for m, mt in ((small if ctx.thorough else PROD_MSG, "rend-response" if ctx.thorough else "prod"), ("<a/>", "tiny"),
+                      ("AAQAAMFbLinlXaCM+plain/artifact==", "artifact-str")):
             for rs, d in [("", DEST_ALPHABET[0]), (RS_ALPHABET[3], DEST_ALPHABET[6]), (rng.choice(RS_ALPHABET), rng.choice(DEST_ALPHABET))]:
                 cases.append({"k": "post", "msg": m, "mtag": mt, "loc": d, "rs": rs, "typ": typ, "via": "pack"})
     for typ in ["SAMLart", "SAMLRequest", "SAMLResponse", "Other", ""]:
         for m, mt in (("AAQAAMFbLinlXaCM+plain/artifact==", "artifact-str"), ("", "empty"), ("<a/>", "tiny")):
             for rs in ["", "rs", RS_ALPHABET[7]]:
-                for d in DEST_ALPHABET[:6]:
+                for d in (DEST_ALPHABET[:6] + DEST_ALPHABET[-4:]) if ctx.thorough else [DEST_ALPHABET[i] for i in (0, 1, 3, 4, -4, -3)]:
                     cases.append({"k": "redir", "msg": m, "mtag": mt, "loc": d, "rs": rs, "typ": typ, "via": "pack"})
     # artifact URLs
-    for rs in RS_ALPHABET:
-        for d in DEST_ALPHABET:
-            cases.append({"k": "arturl", "art": "AAQAAMFbLinlXaCM+plain/artifact==", "dest": d, "rs": rs,
-                          "response": rng.random() < 0.5})
+    for rs, d in rs_dest_pairs(ctx):
+        cases.append({"k": "arturl", "art": "AAQAAMFbLinlXaCM+plain/artifact==", "dest": d, "rs": rs,
+                      "response": rng.random() < 0.5})
+    # URI binding URLs: through apply_binding (no RelayState reaches use_http_uri) and the static method itself
+    for d in DEST_ALPHABET:
+        cases.append({"k": "uriurl", "id": "id-" + rng.choice(["1", "a b", "é&=?#", "x" * 40]), "dest": d, "rs": "", "via": "sp"})
+        for rs in ["", "rs", RS_ALPHABET[7], rng.choice(RS_ALPHABET)] if ctx.thorough else ["rs", rng.choice(RS_ALPHABET)]:
+            cases.append({"k": "uriurl", "id": rng.choice(["id-1", "a&ID=b", "é ✓", "", "#?"]), "dest": d, "rs": rs, "via": "static"})
     # SOAP
     for t, kind, m in msgs:
         cases.append({"k": "soap", "msg": m, "mtag": t, "kind": kind})
     for extra in ["<?xml version='1.0'?>", "<?xml version='1.0'?>\n", "<?xml?>", "<?xml version='1.0'?", "<?xml", "", "\n<a/>", "<a/>\n",
                   "<?xml version='1.0'?>\r<a/>", "<?xml version=\"1.0\" encoding=\"UTF-8\"?><?xml version=\"1.0\" encoding=\"UTF-8\"?><a/>",
-                  "<a>?></a>", "<?xml-stylesheet href='x'?><a/>", " <?xml version='1.0'?><a/>"]:
+                  "<a>?></a>", "<?xml-stylesheet href='x'?><a/>", " <?xml version='1.0'?><a/>",
+                  "<a b='<?xml version=\"1.0\" encoding=\"UTF-8\"?>'/>",
+                  "<?xml version=\"1.0\" encoding=\"UTF-8\"?>\r\n<a><?xml version=\"1.0\" encoding=\"UTF-8\"?></a>"]:
         cases.append({"k": "soap", "msg": extra, "mtag": "edge", "kind": "other"})
     # unravel
     bindings = [REDIRECT, POST, SOAP, URI, ARTIFACT, None, PAOS, "urn:example:unknown"]
-    for t, kind, m in msgs[:6] + [("tiny", "other", "<a/>"), ("empty", "other", "")]:
+    um = msgs[:6] if ctx.thorough else [msgs[0], msgs[3]]
+    for t, kind, m in um + [("tiny-text", "other", byname["tiny-text"][1]), ("tiny", "other", "<a/>"), ("empty", "other", "")]:
         for enc in ("deflate", "plain", "raw"):
             for b in bindings:
+                if not ctx.thorough and len(m) > 300 and (enc == "raw" or b in (SOAP, None, PAOS)):
+                    continue
                 cases.append({"k": "unravel", "msg": m, "mtag": t, "enc": enc, "binding": b})
     for junk in ["!!!!", "AAAA", "A", "AA=A", "éé", "eJwr", "SGVsbG8", "SGVsbG8=", " S G V s b G 8 = ", "80nNyckHAA==", "80nNyckHAA",
                  "y0nNyckHAA==", "AwA=", ""]:
@@ -398,7 +566,7 @@ EIDS = [world.IDP_ID, "https://sp.example.org/sp.xml", "urn:x", "", "https://ün
 def gen_artifacts(ctx):
     rng = ctx.rng
     cases = []
-    idxs = list(range(0, 65536)) if ctx.thorough else list(range(0, 301)) + sorted(rng.sample(range(301, 65536), 120)) + [
+    idxs = list(range(0, 65536)) if ctx.thorough else list(range(0, 301)) + sorted(rng.sample(range(301, 65536), 60)) + [
         4095, 4096, 65535]
     for i in idxs:
         eid = EIDS[i % len(EIDS)] if i % 7 else rng.choice(EIDS)
@@ -406,7 +574,7 @@ def gen_artifacts(ctx):
         others = {i, i % 256, i // 16, i % 16, int(("%02x" % i)[:2], 16), rng.randrange(0, 300)}
         if i % 5 == 0:
             others.discard(i)       # issuer has no service with that index
-        svcs = [[str(j), "https://ars.example.org/%d" % j] for j in sorted(others)]
+        svcs = [[str(j), "L%d" % j] for j in sorted(others)]
         rng.shuffle(svcs)
         cut = rng.randint(0, len(svcs))
         descs = [svcs[:cut], svcs[cut:]] if i % 3 == 0 else [svcs]
@@ -431,9 +599,45 @@ def gen_artifacts(ctx):
     return cases
 
 
+def _weight(c):
+    """Rough size of the Coq term of a case (bytes of string data), for balancing the shards."""
+    k = c["k"]
+    if k == "post":
+        return 6 * len(c["msg"]) + 4 * (len(c["loc"]) + len(c["rs"])) + 400
+    if k == "redir":
+        return 3 * len(c["msg"]) + 3 * (len(c["loc"]) + len(c["rs"])) + 100
+    if k in ("soap", "unravel"):
+        return 4 * len(c["msg"]) + 50
+    if k in ("arturl", "uriurl"):
+        return 3 * (len(c["dest"]) + len(c["rs"])) + 100
+    if k in ("art", "artraw"):
+        return 500
+    return 60
+
+
+SHARD = 400        # harness.common.eval_cases writes 400 consecutive cases per coqc job
+
+
+def balance(cases):
+    """Reorder so that every run of SHARD consecutive cases carries about the same amount of string data
+    (the driver evaluates the shards in parallel; the heaviest shard decides the wall time)."""
+    n = (len(cases) + SHARD - 1) // SHARD
+    if n <= 1:
+        return cases
+    cap = [SHARD] * (n - 1) + [len(cases) - SHARD * (n - 1)]
+    bins = [[] for _ in range(n)]
+    load = [0] * n
+    for w, i in sorted(((_weight(c), i) for i, c in enumerate(cases)), key=lambda e: (-e[0], e[1])):
+        j = min((b for b in range(n) if len(bins[b]) < cap[b]), key=lambda b: (load[b] / cap[b], b))
+        bins[j].append(i)
+        load[j] += w
+    return [cases[i] for b in bins for i in sorted(b)]
+
+
 def generate(ctx):
     msgs = pool(ctx.thorough)
-    return gen_stdlib(ctx) + gen_bindings(ctx, msgs) + gen_artifacts(ctx)
+    ent("sp_ars")      # built before the driver forks its observers
+    return balance(gen_stdlib(ctx) + gen_bindings(ctx, msgs) + gen_artifacts(ctx))
 
 
 # ---------------------------------------------------------------------------- observation
@@ -601,6 +805,14 @@ def observe(case):
         info = ent("idp" if case["response"] else "sp").apply_binding(ARTIFACT, case["art"], case["dest"], case["rs"],
                                                                       response=case["response"], sign=False)
         return {"url": info["url"]}
+    if k == "uriurl":
+        if case["via"] == "static":
+            from saml2.httpbase import HTTPBase
+
+            info = HTTPBase.use_http_uri(case["id"], "SAMLRequest", case["dest"], case["rs"])
+        else:
+            info = ent(case["via"]).apply_binding(URI, case["id"], case["dest"], case["rs"], response=False, sign=False)
+        return {"url": info["url"]}
     if k == "soap":
         from saml2 import soap as s2soap
 
@@ -695,73 +907,60 @@ def observe(case):
 
 
 # ---------------------------------------------------------------------------- Coq cases
-def csm(sm):
-    ents = []
-    for sid, descs in sm:
-        if descs is None:
-            e = "None"
-        else:
-            e = "(Some [" + "; ".join("None" if d is None else "(Some %s)" % cpairs(d) for d in descs) + "])"
-        ents.append("(%s, %s)" % (cs(bytes.fromhex(sid)), e))
-    return "[" + "; ".join(ents) + "]"
-
-
-def ctoks(toks):
-    out = []
-    for t in toks:
-        if t[0] == "s":
-            out.append("TStart %s %s" % (cs(t[1]), cpairs(t[2])))
-        else:
-            out.append("TEnd %s" % cs(t[1]))
-    return "[" + "; ".join(out) + "]"
-
-
 def coq_case(case, obs):
+    P = _Pool()
+    return P.wrap(_coq_case(P, case, obs))
+
+
+def _coq_case(P, case, obs):
     k = case["k"]
     if k == "b64enc":
-        return "KB64enc %s %s" % (cs(bytes.fromhex(case["b"])), cs(obs["enc"]))
+        return "KB64enc %s %s" % (P.s(bytes.fromhex(case["b"])), P.s(obs["enc"]))
     if k == "b64dec":
-        return "KB64dec %s %s %s" % (cs(bytes.fromhex(case["s"])), cs_opt(None if obs["bytes"] is None else bytes.fromhex(obs["bytes"])),
-                                     cs_opt(None if obs["str"] is None else bytes.fromhex(obs["str"])))
+        return "KB64dec %s %s %s" % (P.s(bytes.fromhex(case["s"])), P.opt(None if obs["bytes"] is None else bytes.fromhex(obs["bytes"])),
+                                     P.opt(None if obs["str"] is None else bytes.fromhex(obs["str"])))
     if k == "html":
-        return "KHtml %s %s %s" % (cs(case["s"]), cs(obs["esc"]), cq(bool(obs["unesc_ok"])))
+        return "KHtml %s %s %s" % (P.s(case["s"]), P.s(obs["esc"]), cq(bool(obs["unesc_ok"])))
     if k == "quote":
-        return "KQuote %s %s %s" % (cs(case["s"]), cs(obs["q"]), cs(obs["qp"]))
+        return "KQuote %s %s %s" % (P.s(case["s"]), P.s(obs["q"]), P.s(obs["qp"]))
     if k == "unquote":
-        return "KUnquote %s %s %s" % (cs(case["s"]), cs(obs["u"]), cs(obs["up"]))
+        return "KUnquote %s %s %s" % (P.s(case["s"]), P.s(obs["u"]), P.s(obs["up"]))
     if k == "qs":
-        return "KQs %s %s" % (cs(case["s"]), cpairs(obs["pairs"]))
+        return "KQs %s %s" % (P.s(case["s"]), P.pairs(obs["pairs"]))
     if k == "urlenc":
-        return "KUrlenc %s %s" % (cpairs(case["l"]), cs(obs["s"]))
+        return "KUrlenc %s %s" % (P.pairs(case["l"]), P.s(obs["s"]))
     if k == "url":
         if obs["exc"]:
             return "KUrl \"\" \"\" \"\""     # urlsplit raised: outside the model (never generated for destinations)
-        return "KUrl %s %s %s" % (cs(case["s"]), cs(obs["q"]), cs(obs["f"]))
+        return "KUrl %s %s %s" % (P.s(case["s"]), P.s(obs["q"]), P.s(obs["f"]))
     if k == "int16":
-        return "KInt16 %s %s" % (cs(bytes.fromhex(case["b"])), cs_opt(obs["r"]))
+        return "KInt16 %s %s" % (P.s(bytes.fromhex(case["b"])), P.opt(obs["r"]))
     if k == "fmt":
-        return "KFmt (%d)%%Z %s %s" % (case["n"], cs(obs["hex"]), cs(obs["dec"]))
+        return "KFmt (%d)%%Z %s %s" % (case["n"], P.s(obs["hex"]), P.s(obs["dec"]))
     if k == "post":
-        x = "{| p_msg := %s; p_loc := %s; p_rs := %s; p_typ := %s |}" % (cs(case["msg"]), cs(case["loc"]), cs(case["rs"]), cs(case["typ"]))
-        return "KPost %s %s %s %s %s" % (x, cztab(obs["zt"]), cs_opt(obs["form"]), cures(obs["received"]), ctoks(obs["hp"]))
+        x = "{| p_msg := %s; p_loc := %s; p_rs := %s; p_typ := %s |}" % (P.s(case["msg"]), P.s(case["loc"]), P.s(case["rs"]), P.s(case["typ"]))
+        return "KPost %s %s %s %s %s" % (x, P.ztab(obs["zt"]), P.opt(obs["form"]), P.ures(obs["received"]), P.toks(obs["hp"]))
     if k == "redir":
-        x = "{| r_msg := %s; r_loc := %s; r_rs := %s; r_typ := %s |}" % (cs(case["msg"]), cs(case["loc"]), cs(case["rs"]), cs(case["typ"]))
-        return "KRedir %s %s %s %s %s" % (x, cdtab(obs["dt"]), cztab(obs["zt"]), cs_opt(obs["url"]), cures(obs["received"]))
+        x = "{| r_msg := %s; r_loc := %s; r_rs := %s; r_typ := %s |}" % (P.s(case["msg"]), P.s(case["loc"]), P.s(case["rs"]), P.s(case["typ"]))
+        return "KRedir %s %s %s %s %s" % (x, P.dtab(obs["dt"]), P.ztab(obs["zt"]), P.opt(obs["url"]), P.ures(obs["received"]))
     if k == "arturl":
-        x = "{| u_art := %s; u_dest := %s; u_rs := %s |}" % (cs(case["art"]), cs(case["dest"]), cs(case["rs"]))
-        return "KArtUrl %s %s" % (x, cs(obs["url"]))
+        x = "{| u_art := %s; u_dest := %s; u_rs := %s |}" % (P.s(case["art"]), P.s(case["dest"]), P.s(case["rs"]))
+        return "KArtUrl %s %s" % (x, P.s(obs["url"]))
+    if k == "uriurl":
+        x = "{| i_id := %s; i_dest := %s; i_rs := %s |}" % (P.s(case["id"]), P.s(case["dest"]), P.s(case["rs"]))
+        return "KUriUrl %s %s" % (x, P.s(obs["url"]))
     if k == "soap":
-        return "KSoap %s %s %s %s" % (cs(case["msg"]), cs_opt(obs["env"]), cs_opt(obs["sent"]), cs_opt(obs["recv"]))
+        return "KSoap %s %s %s %s" % (P.s(case["msg"]), P.opt(obs["env"]), P.opt(obs["sent"]), P.opt(obs["recv"]))
     if k == "unravel":
         if obs["res"][0] == "skip":
             return "KUnravel \"\" BUri [] (UOk \"\")"
-        return "KUnravel %s %s %s %s" % (cs(obs["txt"]), BINDING_COQ[case["binding"]], cztab(obs["zt"]), cures(obs["res"]))
+        return "KUnravel %s %s %s %s" % (P.s(obs["txt"]), BINDING_COQ[case["binding"]], P.ztab(obs["zt"]), P.ures(obs["res"]))
     if k == "art":
         x = "{| a_eid := %s; a_sid := %s; a_handle := %s; a_idx := Z.to_nat (%d)%%Z; a_sm := %s |}" % (
-            cs(case["eid"]), cs(bytes.fromhex(obs["sid"])), cs(bytes.fromhex(case["handle"])), case["idx"], csm(obs["sm"]))
-        return "KArt %s %s %s" % (x, cs(obs["art"]), cares(obs["dest"]))
+            P.s(case["eid"]), P.s(bytes.fromhex(obs["sid"])), P.s(bytes.fromhex(case["handle"])), case["idx"], P.sm(obs["sm"]))
+        return "KArt %s %s %s" % (x, P.s(obs["art"]), P.ares(obs["dest"]))
     if k == "artraw":
-        return "KArtRaw %s %s %s" % (csm(obs["sm"]), cs(case["raw"]), cares(obs["dest"]))
+        return "KArtRaw %s %s %s" % (P.sm(obs["sm"]), P.s(case["raw"]), P.ares(obs["dest"]))
     raise ValueError(k)
 
 
@@ -776,10 +975,12 @@ def nontrivial(case, obs):
     if k in ("post", "redir"):
         if case["rs"] == "rs" and case["loc"] == DEST_ALPHABET[0] and case["mtag"] == "tiny":
             return None
-        return (k, case["mtag"], char_classes(case["rs"]), char_classes(case["loc"]), case["typ"], case["via"],
+        return (k, case["mtag"], char_classes(case["rs"]), char_classes(case["loc"]), case["loc"][-3:], case["typ"], case["via"],
                 obs.get("exc"), obs["received"][0])
     if k == "arturl":
-        return (k, char_classes(case["rs"]), char_classes(case["dest"]))
+        return (k, char_classes(case["rs"]), char_classes(case["dest"]), case["dest"][-3:])
+    if k == "uriurl":
+        return (k, char_classes(case["rs"]), char_classes(case["dest"]), case["dest"][-3:], case["via"])
     if k == "soap":
         return (k, case["mtag"], case["msg"][:30], obs["recv"] is not None)
     if k == "unravel":
@@ -796,7 +997,8 @@ def nontrivial(case, obs):
 
 def histogram(cases, observed):
     h = {"by_subcheck": {}, "post_outcomes": {}, "redirect_outcomes": {}, "unravel_outcomes": {}, "artifact_outcomes": {},
-         "messages": {}, "relaystate_classes": {}, "destination_classes": {}, "artifact_index_ranges": {}}
+         "messages": {}, "relaystate_classes": {}, "destination_classes": {}, "destination_query_state": {},
+         "artifact_index_ranges": {}}
 
     def inc(d, key):
         d[key] = d.get(key, 0) + 1
@@ -808,7 +1010,10 @@ def histogram(cases, observed):
             inc(h["messages"], c["mtag"])
             inc(h["relaystate_classes"], char_classes(c["rs"]) or "plain")
             inc(h["destination_classes"], char_classes(c["loc"]) or "plain")
+            inc(h["destination_query_state"], query_state(c["loc"]))
             inc(h["post_outcomes" if k == "post" else "redirect_outcomes"], o.get("exc") or ("sent/" + o["received"][0]))
+        elif k in ("arturl", "uriurl"):
+            inc(h["destination_query_state"], query_state(c["dest"]))
         elif k == "unravel":
             inc(h["unravel_outcomes"], o["res"][0])
         elif k in ("art", "artraw"):
